@@ -708,10 +708,38 @@ pub fn recv_count() -> usize {
     NRECV.load(Ordering::SeqCst)
 }
 
+/// Peer ports whose accept must fail: the connection is taken off the queue, closed, and accept4
+/// reports ECONNABORTED (what a kernel reports when a queued connection was reset).
+static ACCEPT_ABORT_PORTS: Mutex<Vec<u16>> = Mutex::new(Vec::new());
+static ACCEPT_ABORTED: AtomicUsize = AtomicUsize::new(0);
+
+pub fn accept_abort_port(port: u16) {
+    ACCEPT_ABORT_PORTS.lock().unwrap().push(port);
+}
+pub fn accept_abort_clear() {
+    ACCEPT_ABORT_PORTS.lock().unwrap().clear();
+}
+pub fn accept_aborted_count() -> usize {
+    ACCEPT_ABORTED.load(Ordering::SeqCst)
+}
+
 #[no_mangle]
 pub unsafe extern "C" fn accept4(fd: c_int, addr: *mut libc::sockaddr, len: *mut libc::socklen_t, flags: c_int) -> c_int {
     let r = libc::syscall(libc::SYS_accept4, fd, addr, len, flags) as c_int;
     if r >= 0 && SRV.try_with(|v| v.get()).unwrap_or(false) {
+        // peer port of the accepted connection
+        let mut sa: libc::sockaddr_in = std::mem::zeroed();
+        let mut sl = std::mem::size_of::<libc::sockaddr_in>() as libc::socklen_t;
+        if libc::getpeername(r, &mut sa as *mut _ as *mut libc::sockaddr, &mut sl) == 0 && sa.sin_family as i32 == libc::AF_INET {
+            let port = u16::from_be(sa.sin_port);
+            let hit = ACCEPT_ABORT_PORTS.lock().map(|mut v| if let Some(i) = v.iter().position(|p| *p == port) { v.remove(i); true } else { false }).unwrap_or(false);
+            if hit {
+                libc::syscall(libc::SYS_close, r);
+                ACCEPT_ABORTED.fetch_add(1, Ordering::SeqCst);
+                seterr(libc::ECONNABORTED);
+                return -1;
+            }
+        }
         if let Ok(mut g) = SERVER_FDS.lock() {
             g.get_or_insert_with(HashSet::new).insert(r);
         }
